@@ -220,7 +220,8 @@ class Family:
         r = self._rewrite("join", op["src"], args(), (lambda pl: pl | p2.pl) if op.get("how") == "or" else
                           (lambda pl: pl.join(p2.pl)), src2=op["partner"])
         if r is not None:
-            i = self._derive(op["src"], r, "join", mutated=self.objs[op["src"]].feats["mutated"] or p2.feats["mutated"])
+            i = self._derive(op["src"], r, "join", mutated=self.objs[op["src"]].feats["mutated"] or p2.feats["mutated"],
+                             model_merged=bool(self.objs[op["src"]].feats.get("model_merged") or p2.feats.get("model_merged")))
             self.objs[i].names.update(p2.names)
             self.objs[i].lift.update(p2.lift)
             self.objs[i].lineage += [k for k in p2.lineage if k != "new"]
@@ -297,6 +298,7 @@ class Family:
         r = self._rewrite("nest", src, a, lambda pl: pl.nest_funcs(names, new_name), members=members)
         if r is not None:
             o.lineage.append("nest")
+            o.feats["model_merged"] = True
             o.feats["merged_tuple_leaf"] = o.feats.get("merged_tuple_leaf", False) or leaf_tuple
             self._finish([src])
         self.events[-1]["_feats"]["merged_tuple_leaf"] = leaf_tuple
@@ -311,7 +313,7 @@ class Family:
             nested_tuple = any(type(f).__name__ == "NestedPipeFunc" and any(
                 isinstance(g.output_name, tuple) and not list(f.pipeline.graph.successors(g)) for g in f.pipeline.functions)
                 for f in r.functions)
-            i = self._derive(src, r, "simplified",
+            i = self._derive(src, r, "simplified", model_merged=True,
                              merged_tuple_leaf=o.feats.get("merged_tuple_leaf", False) or nested_tuple)
             self._finish([i])
 
@@ -384,6 +386,13 @@ class Family:
             except Exception as ex:  # noqa: BLE001
                 self.events.append(ev(e="eval", id=i, mode="call", conv="dotted", exc=type(ex).__name__, val=exc_term(ex)))
                 continue
+            # cheap observation: what a throw-away copy of the object looks like (re-reads the per-function naming state)
+            try:
+                with quiet():
+                    st = self.struct(o.pl.copy())
+                self.events.append(ev(e="probe", id=i, struct=[st]))
+            except Exception as ex:  # noqa: BLE001
+                self.events.append(ev(e="probe", id=i, exc=type(ex).__name__, struct=[{"outs": [], "roots": []}]))
             if mapped:
                 self.eval_map(i, o, step, defaults)
             else:
@@ -537,7 +546,8 @@ def gen_op(fam: Family, rng: random.Random, counter: list[int], *, mutation: boo
         msnames = set(pl.mapspec_names)
     except Exception:  # noqa: BLE001
         return [{"op": "copy", "src": src}]
-    merged = any(type(f).__name__ == "NestedPipeFunc" for f in pl.functions)
+    # the model's `merged` flag (inherited by every descendant of a nest/simplify, also by split components)
+    merged = bool(o.feats.get("model_merged")) or any(type(f).__name__ == "NestedPipeFunc" for f in pl.functions)
     counter[0] += 1
     c = counter[0]
     if mutation:
@@ -730,7 +740,7 @@ def classify(tr: dict, reached: int) -> tuple[dict, str]:
                     f"model's")
     elif e["e"] == "mutate":
         what = f"mutation {e['kind']} not explained by the model"
-    elif e["e"] == "eval":
+    elif e["e"] in ("eval", "probe"):
         # lineage features of the evaluated object
         oid = e["id"]
         lin: list[str] = []
@@ -752,7 +762,7 @@ def classify(tr: dict, reached: int) -> tuple[dict, str]:
         tgt_of_last = bool(last) and (oid in (last.get("new_ids") or []) or oid == last.get("id") or
                                       (last["e"] == "rewrite" and last["kind"] in IN_PLACE and oid == last["src"])
                                       or (last["e"] == "new" and oid == last["id"]))
-        prev_ok = any(x["e"] == "eval" and x["id"] == oid and x["out"] == e["out"] and not x["exc"] for x in evs[:reached - 1])
+        prev_ok = any(x["e"] == e["e"] and x["id"] == oid and x["out"] == e["out"] and not x["exc"] for x in evs[:reached - 1])
         sig.update({"kind": "", "mode": e["mode"], "last_kind": last["kind"] if last and last["e"] != "new" else "new",
                     "target_of_last_op": tgt_of_last,
                     "aliasing": (not tgt_of_last) and prev_ok,
@@ -763,8 +773,10 @@ def classify(tr: dict, reached: int) -> tuple[dict, str]:
                     "via_axis": "add_mapspec_axis" in lin, "via_pickle": "pickle" in lin,
                     "merged_tuple_leaf": feats["merged_tuple_leaf"], "bound_in_merged": feats["bound"],
                     "tuple_in_source": feats["tuple"], "mutated": feats["mutated"]})
-        what = (f"object {oid} (history {list(reversed(lin))}) evaluated {e['out'] or 'map'} with {dict((k, '..') for k, _ in e['inputs'])}: "
-                f"{'raised ' + e['exc'] + ' ' + e.get('_msg', '') if e['exc'] else 'value differs from EvalObs of its entry'}"
+        did = (f"evaluated {e['out'] or 'map'} with {dict((k, '..') for k, _ in e['inputs'])}" if e["e"] == "eval" else
+               f"copied for inspection, structure {e['struct']}")
+        what = (f"object {oid} (history {list(reversed(lin))}) {did}: "
+                f"{'raised ' + e['exc'] + ' ' + e.get('_msg', '') if e['exc'] else 'differs from the model entry of this object'}"
                 f"{'; the object was not the target of the last operation (' + sig['last_kind'] + ')' if sig['aliasing'] else ''}")
     return sig, what
 
@@ -785,7 +797,7 @@ INVS = ["InvNoAliasing", "InvStoreOK", "InvRewritePreserves"]
 def validate(ctx: Ctx, traces: list[dict], name: str, count: bool = True) -> dict[int, int]:
     stripped = [strip_private(t) for t in traces]
     rej = validate_traces(ctx, "TraceRewrites", stripped, name, invariants=INVS,
-                          chunk=max(10, min(60, len(traces) // 8 + 1)), count=count)
+                          chunk=max(10, min(60, len(traces) // 4 + 1)), count=count)
     return rej
 
 
@@ -811,7 +823,7 @@ def model_check(ctx: Ctx, quick: bool) -> None:
         cfgs += [dict(n=2, rich="FALSE", shard=(seed + s) % 8, nshards=8, maxrw=3, maxmut=0, axis="FALSE") for s in range(2)]
         cfgs += [dict(n=2, rich="FALSE", shard=(seed + 1) % 100, nshards=100, maxrw=3, maxmut=1, axis="FALSE")]
         cfgs += [dict(n=2, rich="FALSE", shard=(seed + s) % 6, nshards=6, maxrw=2, maxmut=1, axis="TRUE") for s in range(2)]
-        cfgs += [dict(n=3, rich="FALSE", shard=(seed + 11) % 400, nshards=400, maxrw=2, maxmut=1, axis="FALSE")]
+        cfgs += [dict(n=3, rich="FALSE", shard=(seed + 11) % 300, nshards=300, maxrw=2, maxmut=1, axis="FALSE")]
         workers = 2
 
     def one(k: int):
@@ -901,7 +913,7 @@ def replay(rep: dict) -> int:
     w = rep["witness"]
     tr = run_script(w["script"])
     for e in tr["ev"]:
-        if e["e"] != "eval":
+        if e["e"] not in ("eval", "probe"):
             print({k: v for k, v in e.items() if v != BLANK_EV.get(k) and k not in ("desc", "_feats")})
     ctx = Ctx(PROPERTY, "quick", 0)
     ctx.findings = []
